@@ -27,8 +27,8 @@ Python (after the `fix:` commits), abridged:
         cached_data = []; current_bundle_tag = None
         try:
             processed = 0
-            for collocations, attributes in self._collocate_matches(**kwargs):
-                match = matches[processed]; processed += 1
+            for collocations, attributes, match in self._collocate_matches(**kwargs):
+                processed += 1                      # match = the (primary, secondary) files collocated
                 if collocations is None: results.put([name, progress, None]); continue
                 if bundle is None:
                     results.put([name, progress, save(collocations)]); continue
@@ -43,9 +43,10 @@ Python (after the `fix:` commits), abridged:
             results.put([name, 100., ProcessCrashed]); ...; raise
 
 `_collocate_matches` yields one item per flattened match *that align() did not skip*
-(`skip_file_errors` and an unreadable file → align yields nothing for that match), so
-`matches[processed]` lags behind the real match after a skip — modelled by the separate
-`lookup` list below.
+(`skip_file_errors` and an unreadable file → align yields nothing for that match) together
+with the files it collocated; the bundle tag is taken from those files.  (Before the fix
+"bundle tag lags after a skipped match" the loop used `matches[processed]`, which points to an
+earlier match once a match was skipped: signature `bundle-tag-lag` of the harness.)
 -/
 
 namespace CFiles
@@ -123,33 +124,28 @@ def shouldSave (cur : Option Tag) (t : Tag) : Bool :=
   | none => false
   | some c => c != t
 
-/-- The loop of `_process_caller`.  `lookup` = `matches[processed:]`, `cached` =
-`cached_data`, `tag` = `current_bundle_tag`, last argument = what `_collocate_matches`
-will still go through.  Returns the objects put on the result queue, in order. -/
-def worker (b : Bundle) : List Job → List Cached → Option Tag → List Job → List Item
-  | _, cached, _, [] => if cached.isEmpty then [] else [.result cached]
-  | lk, cached, tag, j :: rest =>
+/-- The loop of `_process_caller`.  `cached` = `cached_data`, `tag` = `current_bundle_tag`,
+last argument = the flattened matches `_collocate_matches` will still go through (each yields
+its own files as `match`).  Returns the objects put on the result queue, in order. -/
+def worker (b : Bundle) : List Cached → Option Tag → List Job → List Item
+  | cached, _, [] => if cached.isEmpty then [] else [.result cached]
+  | cached, tag, j :: rest =>
     match j.out with
-    | .skipped => worker b lk cached tag rest
+    | .skipped => worker b cached tag rest
     | .crash => [.crashed]
-    | .res ro =>
-      match lk with
-      | [] => [.crashed]                       -- IndexError in `matches[processed]`
-      | m :: lk' =>
-        match ro with
-        | none => .progress :: worker b lk' cached tag rest
-        | some r =>
-          match b with
-          | .none => .result [⟨tagOf b m r, r⟩] :: worker b lk' cached tag rest
-          | _ =>
-            let t := tagOf b m r
-            if shouldSave tag t then
-              .result cached :: worker b lk' [⟨t, r⟩] (some t) rest
-            else
-              worker b lk' (cached ++ [⟨t, r⟩]) (some t) rest
+    | .res none => .progress :: worker b cached tag rest
+    | .res (some r) =>
+      match b with
+      | .none => .result [⟨tagOf b j r, r⟩] :: worker b cached tag rest
+      | _ =>
+        let t := tagOf b j r
+        if shouldSave tag t then
+          .result cached :: worker b [⟨t, r⟩] (some t) rest
+        else
+          worker b (cached ++ [⟨t, r⟩]) (some t) rest
 
 /-- everything a worker process puts, given its flattened matches -/
-def workerItems (b : Bundle) (jobs : List Job) : List Item := worker b jobs [] none jobs
+def workerItems (b : Bundle) (jobs : List Job) : List Item := worker b [] none jobs
 
 /-- the bundles (datasets) among the items -/
 def bundlesOf : List Item → List (List Cached)
